@@ -91,3 +91,133 @@ def load_all():
 def for_property(pid):
     load_all()
     return [c for c in CHECKS.values() if c.prop == pid]
+
+
+# ----------------------------------------------------------------------------------------------------------------------------
+# derived-object twins: the same check, with the structures it builds obtained as DERIVED objects of a parent that was used first
+# ----------------------------------------------------------------------------------------------------------------------------
+# Every statement speaks about masks / kernels / meshes whatever way they were obtained.  A check that writes `aa.Mask2D(mask=m, ...)`
+# only ever sees freshly constructed objects, whose caches are empty.  Under `derived_constructors()` the names `aa.Mask2D`,
+# `aa.Kernel2D` and `aa.Mesh2DDelaunay` (constructor and classmethod constructors) hand back an object with the SAME contents obtained by
+# a public derivation from a parent whose public properties were all read first:
+#   Mask2D          parent = the mask padded by one masked row above and below (same pixel scales, same origin); derived = parent[1:H+1, :]
+#   Kernel2D        parent = 2.0 * K;  derived = parent / 2.0                      (exact in binary floating point)
+#   Mesh2DDelaunay  parent = mesh * (4.0, 1.0);  derived = parent / (4.0, 1.0)     (exact; an anisotropic re-scaling changes the triangulation)
+# A derived object that still carries anything the parent computed (geometry, native form, triangulation, neighbours ...) answers for
+# the parent, not for itself; the check's own oracle then fails.  Nothing is demanded beyond the statement: the derived object IS an
+# ordinary mask / kernel / mesh with the stated contents (type and contents are verified here; otherwise the plain object is used).
+
+def _warm(obj, depth=1):
+    """read every public property once (fills every cache the object has)"""
+    for name in dir(type(obj)):
+        if name.startswith("_"):
+            continue
+        attr = getattr(type(obj), name, None)
+        if not (isinstance(attr, property) or type(attr).__name__ in ("cached_property", "CachedProperty")):
+            continue
+        try:
+            v = getattr(obj, name)
+        except Exception:
+            continue
+        if depth > 0 and type(v).__module__.startswith("autoarray") and not hasattr(v, "_array"):
+            _warm(v, depth - 1)
+
+
+def _same_contents(a, b):
+    import numpy as np
+    x, y = np.asarray(getattr(a, "_array", a)), np.asarray(getattr(b, "_array", b))
+    return type(a) is type(b) and x.shape == y.shape and x.dtype == y.dtype and x.tobytes() == y.tobytes()
+
+
+def _derive_mask(real, m):
+    import numpy as np
+    arr = np.array(m._array)
+    if arr.ndim != 2 or 0 in arr.shape:
+        return None
+    parent = real(mask=np.pad(arr, ((1, 1), (0, 0)), constant_values=True), pixel_scales=m.pixel_scales, origin=m.origin)
+    _warm(parent)
+    d = parent[1:arr.shape[0] + 1, :]
+    return d if _same_contents(d, m) and d.pixel_scales == m.pixel_scales and d.origin == m.origin else None
+
+
+def _derive_scaled(real, k):
+    parent = k * 2.0
+    _warm(parent)
+    d = parent / 2.0
+    return d if _same_contents(d, k) else None
+
+
+def _derive_mesh(real, mesh):
+    import numpy as np
+    s = np.array([4.0, 1.0])
+    parent = mesh * s
+    _warm(parent)
+    d = parent / s
+    return d if _same_contents(d, mesh) else None
+
+
+def _twin_class(real, derive):
+    import inspect
+
+    def through(obj):
+        if type(obj) is not real:
+            return obj
+        try:
+            d = derive(real, obj)
+        except Exception:
+            d = None
+        return obj if d is None else d
+
+    class Meta(type(real)):
+        def __instancecheck__(cls, inst):
+            return isinstance(inst, real)
+
+        def __subclasscheck__(cls, sub):
+            return issubclass(sub, real)
+
+    def __new__(cls, *a, **k):
+        return through(real(*a, **k))           # an instance of `real`, not of the twin class: __init__ is not run a second time
+
+    ns = {"__new__": __new__, "__module__": real.__module__, "__qualname__": real.__qualname__}
+    for name in dir(real):
+        if name.startswith("_"):
+            continue
+        try:
+            f = getattr(real, name)
+        except Exception:
+            continue
+        if inspect.ismethod(f) and f.__self__ is real:       # classmethod constructors (Mask2D.circular, Kernel2D.no_mask, ...)
+            ns[name] = staticmethod(lambda *a, _f=f, **k: through(_f(*a, **k)))
+    return Meta(real.__name__, (real,), ns)
+
+
+import contextlib
+
+
+@contextlib.contextmanager
+def derived_constructors():
+    import sys
+    import autoarray as aa
+    saved = []
+    try:
+        for name, derive in (("Mask2D", _derive_mask), ("Kernel2D", _derive_scaled), ("Mesh2DDelaunay", _derive_mesh)):
+            real = getattr(aa, name, None)
+            if real is None:
+                continue
+            twin = _twin_class(real, derive)
+            # the public name and every module-level binding of the class inside the library (`from ... import Mesh2DDelaunay`), so
+            # that objects the library constructs on the user's behalf (a mesh inside mapper_grids_from) are derived objects too
+            for modname, mod in list(sys.modules.items()):
+                if mod is None or not (modname == "autoarray" or modname.startswith("autoarray.")):
+                    continue
+                if mod.__dict__.get(name) is real and modname != real.__module__:
+                    saved.append((mod, name, real))
+                    setattr(mod, name, twin)
+        yield
+    finally:
+        for mod, name, real in saved:
+            setattr(mod, name, real)
+
+
+DERIVED_NOTE = ("with aa.Mask2D / aa.Kernel2D / aa.Mesh2DDelaunay objects obtained as derived objects (pad + slice, (2 K) / 2, "
+                "(mesh * (4, 1)) / (4, 1)) of a parent whose public properties were read first: ")
